@@ -298,3 +298,78 @@ Definition degrading_multisig_tree (pts : list point) (k kind interval : Z) : re
   ls <- degrading_leaves pts kind interval k (Z.to_nat k) k ;; combine_nodes (length ls) ls.
 
 End Musig.
+
+(* ---------------- Tx.initialize_p2tr_multisig / Tx.finalize_p2tr_multisig (buidl/tx.py) ----------------
+   The part of a TxIn these two methods touch: witness.items and tap_script (None, or a
+   MultiSigTapScript of which only .points — the x-only lifts of its sorted keys — is used). *)
+Record tap_in := { ti_items : list bytes; ti_points : option (list point) }.
+
+Section TapMultisigTx.
+Variable C : curve.
+Variable sha256 : bytes -> bytes.
+(* Tx.sig_hash(input_index, hash_type) of the transaction being signed: an external call (C05) *)
+Variable sighash : Z -> result bytes.
+
+(* MultiSigTapScript(points, k).points *)
+Definition multisig_points (pts : list point) : result (list point) :=
+  match pts with
+  | [] => Err
+  | _ => mapM (parse_xonly C) (sort_bytes (map xonly pts))
+  end.
+
+(* initialize_p2tr_multisig(input_index, control_block, tap_script).  [ms_pts] = Some tap_script.points when
+   type(tap_script) is MultiSigTapScript, None for any other tap script.  Nothing at all happens when the witness
+   is not empty.  The witness is assigned BEFORE the type check: (new state, RuntimeError raised?).
+   Err = raw_serialize / ControlBlock.serialize raised (state unchanged). *)
+Definition init_p2tr_multisig (st : tap_in) (cb : control_block) (sc : script)
+  (ms_pts : option (list point)) : result (tap_in * bool) :=
+  match ti_items st with
+  | [] =>
+      raw <- raw_serialize sc ;; cbs <- cb_serialize cb ;;
+      match ms_pts with
+      | Some ps => Ok ({| ti_items := [raw; cbs]; ti_points := Some ps |}, false)
+      | None => Ok ({| ti_items := [raw; cbs]; ti_points := ti_points st |}, true)
+      end
+  | _ => Ok (st, false)
+  end.
+
+(* one (point, non-empty signature) test of the inner loop: 64 bytes -> SIGHASH_DEFAULT, 65 bytes -> the last
+   byte is the hash type, any other length raises; SchnorrSignature.parse, then sig_hash, then verify_schnorr *)
+Definition fin_check (P : point) (sg : bytes) : result bool :=
+  if (length sg =? 64)%nat then
+    '(r, s) <- schnorr_parse C sg ;; msg <- sighash 0 ;; schnorr_verify C sha256 P msg r s
+  else if (length sg =? 65)%nat then
+    '(r, s) <- schnorr_parse C (removelast sg) ;; msg <- sighash (last sg 0) ;;
+    schnorr_verify C sha256 P msg r s
+  else Err.
+
+(* `for sig in sigs: ... break / else: b""`: the first signature that verifies for the point, b"" when none does *)
+Fixpoint fin_find (P : point) (sigs : list bytes) : result bytes :=
+  match sigs with
+  | [] => Ok []
+  | [] :: r => fin_find P r
+  | sg :: r => ok <- fin_check P sg ;; if ok then Ok sg else fin_find P r
+  end.
+
+(* `for point in tap_script.points: ... items.insert(0, slot)`.  (items, completed?): an exception in the inner
+   loop leaves the slots inserted so far in the witness *)
+Fixpoint fin_loop (pts : list point) (sigs : list bytes) (items : list bytes) : list bytes * bool :=
+  match pts with
+  | [] => (items, true)
+  | P :: r =>
+      match fin_find P sigs with
+      | Ok s => fin_loop r sigs (s :: items)
+      | Err => (items, false)
+      end
+  end.
+
+(* finalize_p2tr_multisig(input_index, sigs) up to the final `return self.verify_input(input_index)`:
+   Err = RuntimeError("initialize single leaf multisig first") *)
+Definition finalize_p2tr_multisig (st : tap_in) (sigs : list bytes) : result (list bytes * bool) :=
+  if (length (ti_items st) <? 2)%nat then Err
+  else match ti_points st with
+       | None => Err
+       | Some pts => Ok (fin_loop pts sigs (ti_items st))
+       end.
+
+End TapMultisigTx.
